@@ -80,7 +80,8 @@ macro_rules! ser_hist {
                 let mut e: Vec<f64> = (0..=<$t as Hst>::LEN).map(|_| (rng.below(5) as f64 - 2.0) * 0.5).collect(); e.sort_by(|a, b| a.partial_cmp(b).unwrap()); <$t>::from_ranges(e).unwrap() } else { let mut e: Vec<f64> = (0..=<$t as Hst>::LEN).map(|_| rng.normal() * 2.0).collect(); e.sort_by(|a, b| a.partial_cmp(b).unwrap()); <$t>::from_ranges(e).unwrap() } }
             fn step(&mut self, x: f64, _w: f64) { let _ = self.add(x); }
             fn merge_with(&mut self, o: &Self) -> bool { if self.ranges_() == o.ranges_() { Merge::merge(self, o); true } else { false } }
-            fn stats(&self) -> Vec<String> { let mut v: Vec<String> = self.variances_().iter().map(|x| fw(*x)).collect(); v.extend(self.bins_().iter().map(|b| b.to_string())); v }
+            fn stats(&self) -> Vec<String> { let mut v: Vec<String> = self.variances_().iter().map(|x| fw(*x)).collect(); v.extend(self.bins_().iter().map(|b| b.to_string()));
+                for i in 0..<$t as Hst>::LEN.min(4) { v.push(fw(self.variance_(i))); } v.extend(self.normalized_().iter().take(4).map(|x| fw(*x))); v }
         }
     };
 }
